@@ -791,7 +791,7 @@ gsubLoop:
 			}
 			lookup.Subtables = append(lookup.Subtables, subtable)
 
-		case isIdentifier(next, "class"):
+		case isIdentifier(next, "class") && p.peekSecond().typ == itemColon:
 			className, glyphList := p.parseClassDef()
 			if _, exists := inputClassIdx[className]; exists {
 				p.fatal("duplicate class :%s:", className)
@@ -907,6 +907,8 @@ gsubLoop:
 			nextType = p.peek().typ
 		}
 		p.backlog = append(p.backlog, next)
+		// "inputclass" etc. may also be glyph names; a class definition continues with ":"
+		isDef := next.typ == itemIdentifier && p.peekSecond().typ == itemColon
 		switch {
 		default: // format 1
 			res := make(map[glyph.ID][]*gtab.ChainedSeqRule)
@@ -950,7 +952,7 @@ gsubLoop:
 			}
 			lookup.Subtables = append(lookup.Subtables, subtable)
 
-		case isIdentifier(next, "inputclass"):
+		case isDef && isIdentifier(next, "inputclass"):
 			className, glyphList := p.parseClassDef()
 			if _, exists := inputClassIdx[className]; exists {
 				p.fatal("duplicate input class :%s:", className)
@@ -966,7 +968,7 @@ gsubLoop:
 			p.optional(itemEOL)
 			continue gsubLoop
 
-		case isIdentifier(next, "backtrackclass"):
+		case isDef && isIdentifier(next, "backtrackclass"):
 			className, glyphList := p.parseClassDef()
 			if _, exists := backtrackClassIdx[className]; exists {
 				p.fatal("duplicate backtrack class :%s:", className)
@@ -982,7 +984,7 @@ gsubLoop:
 			p.optional(itemEOL)
 			continue gsubLoop
 
-		case isIdentifier(next, "lookaheadclass"):
+		case isDef && isIdentifier(next, "lookaheadclass"):
 			className, glyphList := p.parseClassDef()
 			if _, exists := lookaheadClassIdx[className]; exists {
 				p.fatal("duplicate lookahead class :%s:", className)
@@ -1411,6 +1413,14 @@ func (p *parser) peek() item {
 	next := p.readItem()
 	p.backlog = append(p.backlog, next)
 	return next
+}
+
+// peekSecond returns the item after the next one, without consuming anything.
+func (p *parser) peekSecond() item {
+	first := p.readItem()
+	second := p.peek()
+	p.backlog = append(p.backlog, first)
+	return second
 }
 
 func (p *parser) required(typ itemType, desc string) item {
